@@ -48,6 +48,13 @@ func (c19) Gen(r *rand.Rand, tier string, run int) *core.Case {
 		c.Params["testrange"] = 1
 	}
 	if r.IntN(4) == 0 {
+		// a service registered before all the others (so that it comes
+		// first in every listing), which nobody asks for, goes away while
+		// the goroutines make their first requests
+		c.Params["victim"] = 1
+		c.Params["victim_delay"] = r.IntN(150)
+	}
+	if r.IntN(4) == 0 {
 		c.Params["early_service"] = 1
 		c.Params["early_delay"] = r.IntN(120)
 	}
@@ -58,6 +65,9 @@ func (c19) Gen(r *rand.Rand, tier string, run int) *core.Case {
 		c.Batch = "many-goroutines"
 		n = 12 + r.IntN(8)
 		c.Params["many"] = 1
+		// (no news from the directory meanwhile: a refresh of the session's
+		// list shed by the full queue is the known finding in another guise)
+		delete(c.Params, "victim")
 	}
 	for g := 0; g < n; g++ {
 		k := 1 + r.IntN(2)
@@ -111,7 +121,13 @@ func (c19) Run(c *core.Case, env *core.Env) {
 		env.Violate("harness/setup", "%v", err)
 		return
 	}
-	_, err = dsrv.NewService("Probe0", probe.ProbeObject(&ProbeImpl{Env: env, Obj: 0}))
+	var victim bus.Service
+	if c.P("victim", 0) == 1 {
+		victim, err = dsrv.NewService("ProbeVictim", probe.ProbeObject(&ProbeImpl{Env: env, Obj: 90}))
+	}
+	if err == nil {
+		_, err = dsrv.NewService("Probe0", probe.ProbeObject(&ProbeImpl{Env: env, Obj: 0}))
+	}
 	zzsim.SetNode("harness")
 	if err != nil {
 		env.Violate("harness/setup", "%v", err)
@@ -238,6 +254,18 @@ func (c19) Run(c *core.Case, env *core.Env) {
 			by[op.Actor] = append(by[op.Actor], op)
 		}
 		var wg sync.WaitGroup
+		if victim != nil && kind == "proxy" {
+			wg.Add(1)
+			go func() {
+				defer wg.Done()
+				for j := 0; j < c.P("victim_delay", 0); j++ {
+					zzsim.Yield("h.victim-delay")
+				}
+				zzsim.SetNode("server0")
+				victim.Terminate()
+				env.Probe("a-service-listed-first-went-away-during-the-requests")
+			}()
+		}
 		for _, a := range actors {
 			wg.Add(1)
 			go func(a int) {
